@@ -648,6 +648,14 @@ fn simple_polygon(n: i64, rng: &mut Rng) -> Vec<P> {
         }
     }
 }
+/// like `lat` but NOT scaled: meeting points are non-integral rationals. Only for checks that
+/// evaluate geometry-free laws (C12): the integer oracle cannot judge these inputs.
+pub fn latraw_pair(rng: &mut Rng) -> (Vec<(Vec<P>, Vec<Vec<P>>)>, Vec<(Vec<P>, Vec<Vec<P>>)>) {
+    let n = rng.range(3, 7);
+    let a = simple_polygon(n, rng);
+    let b = simple_polygon(n, rng);
+    (vec![(a, vec![])], vec![(b, vec![])])
+}
 pub fn lat_pair(rng: &mut Rng) -> (Vec<(Vec<P>, Vec<Vec<P>>)>, Vec<(Vec<P>, Vec<Vec<P>>)>) {
     loop {
         let n = rng.range(3, 6);
